@@ -234,6 +234,8 @@ class Contract:
     def apply_at_call(self, ex: Executor, st: State, args, kwargs, node):
         ctx = ex.ctx
         fnode, module = self.load(ctx)
+        if fnode.name == "__init__" and not self.key.endswith("__init__"):
+            args = [None] + list(args)        # class contract: the constructor's self is not an argument of the call
         env = ex.bind_params(fnode, args, kwargs, st, node)
         for k, v in list(env.items()):
             if isinstance(v, Seq):
@@ -268,7 +270,12 @@ class Contract:
             ens = normalise_clauses(ex, st, self.ensures(ns, _wrap_result(res, st)))
         for cname, cond in ens.items():
             st.assume(cond)
-        return [Outcome("return", st, res)]
+        outs = [Outcome("return", st, res)]
+        for etype in getattr(self, "raises_at_call", ()) or ():
+            # the callee may also leave exceptionally: same frame effects, no result
+            s2 = st.fork()
+            outs.append(Outcome("raise", s2, ExcVal(etype, ("<raised by callee>",))))
+        return outs
 
     def load(self, ctx: Ctx):
         rel, qual = self.key.split("::")
